@@ -1,6 +1,7 @@
 """C14 -- IDL built-in replacements (smooth, median, uniq, rebin) follow IDL semantics."""
 import fractions
 import os
+import re
 
 from harness import common as C
 from translate import c14 as T
@@ -13,19 +14,26 @@ TRUSTED = [
     '(parity rule, width<3 test, istart/iend/w2, branch tests, slice bounds, edge multipliers; the arithmetic shape of the three stores is matched structurally) '
     'and for rebin.py\'s integer parts (rank test, per-axis % tests, expand/keep/shrink selectors, shrink factor / pick / block bounds; '
     'the integer-kind -> rr//f else rr/f shape is matched structurally)',
-    'hand-written models C14/Model.v of median.py, uniq.py, the expanding branch and axis loop of rebin.py and of the glue of smooth.py (Python slice clamping, map over range(n)) -- tied by correspondence only',
+    'rebin.py axis loop (round 5): number of passes, the list position used in pass k for d / d0 / new_shape / the three slice lists / the block sum, '
+    'scratch lists re-created per pass, xx = r, dtype kept -- GENERATED as an axis plan; Model.axis_plan_ok compares it with the reference plan '
+    '(pass k acts on nesting level k) that rebin_nd_axes implements; C14_rebin_axis_plan proves the comparison for every rank',
+    'hand-written in C14/Model.v (tied by correspondence): numpy/scipy primitives (np.median, medfilt/medfilt2d as zero-padded window medians, roll, nonzero, '
+    'fancy indexing, sum), Python slice clamping and the map over range(n) of smooth.py, nested lists for n-D arrays',
+    'pydl/__init__.py re-exports: not modelled; every call is made through one import route (package / defining module, drawn per call) and repeated through the other, the answers must be identical',
     'numpy semantics exercised, not modelled: ndarray.sum/copy/flatten/argsort/roll/nonzero, fancy indexing, float->integer truncation on store, '
     'np.median; scipy.signal.medfilt/medfilt2d modelled as zero-padded window medians',
     'exact rationals stand for IEEE doubles: inputs are short dyadic rationals, results compared at 1e-12 (float64) / 1e-5 (float32) / exactly (integers, medians, uniq)',
     'Coq stdlib ZArith, QArith, Lia, Lqa (theorems closed under the global context)',
 ]
 ASSUMPTIONS = [
-    'smooth: 1-D float64 input, scalar integer width; the specification (clamped boxcar) is claimed for widths not exceeding the length '
+    'smooth / uniq: 1-D input, or column-like input (n,), (n,1), (n,1,1) which numpy indexing treats as 1-D; other multi-dimensional shapes ((1,n), (2,1,4)) are outside '
+    '(smooth is 1-D code and raises IndexError there) -- observed only, both import routes must agree',
+    'smooth: float64 input, scalar integer width; bit-exact comparison (every output sample = the double nearest to the exact mean) for arrays whose window sums are exact in doubles, 1e-12 relative otherwise; the specification (clamped boxcar) is claimed for widths not exceeding the length '
     '(owidth <= n, as the property says); for wider windows with edge_truncate the code is NOT a clamped boxcar (model M still corresponds)',
-    'median: float64 input without NaN; running median for odd 1 <= width <= extent (1-D: length, 2-D: both extents); an even kernel raises ValueError in scipy (modelled, outside the property)',
+    'median: float64 input without NaN; running median for odd 1 <= width <= length (1-D) / odd 1 <= width <= number of elements (2-D, incl. one-row / one-column images: no interior point, unchanged); an even kernel min(width, size) raises ValueError in scipy (modelled: C14_median_filter1_rejects; outside the property); 3-D with a width -> ValueError',
     'uniq: non-empty input; with an index: subscripts in range; the specification is claimed for input sorted ascending (through the index); '
     'for a constant array with an index the result is [n-1] as in IDL uniq.pro (not index[n-1])',
-    'rebin: extents >= 1, rank 1..3; integer dtypes: values small enough that no integer overflow occurs in sums; integer results: truncation toward zero '
+    'rebin: extents >= 1 (size 0 only model M), any rank >= 1 (correspondence runs ranks 1..5); integer dtypes: values small enough that no integer overflow occurs in sums; integer results: truncation toward zero '
     'of the interpolant, floor of the block mean (as the code does; IDL integer rounding for negative values is not documented -- pydl issue #60); '
     'integer sums/products stay below 2^53 (generated values are small)',
 ]
@@ -137,8 +145,11 @@ def gen_smooth(ctx, calls):
                               {'f': 'smooth', 'x': values(rng, n), 'w': w, 'et': et}))
     for w in (-3, -2, -1):
         calls.append(('smooth-negwidth', {'f': 'smooth', 'x': values(rng, 7), 'w': w, 'et': True}))
-    for n in (1, 2, 5, 9):
-        calls.append(('smooth-default-et', {'f': 'smooth', 'x': values(rng, n), 'w': 3, 'et': None}))
+    # edge_truncate omitted (default False); the other defaults (median: width/axis/even, rebin: sample, uniq: index)
+    # are exercised by every call that does not set them -- the impl passes a keyword only when it is set
+    for n in (1, 2, 3, 4, 5, 6, 7, 9, 12, 17, 24):
+        for w in sorted({3, 4, max(2, n // 2), n}):
+            calls.append(('smooth-default-et', {'f': 'smooth', 'x': values(rng, n), 'w': w, 'et': None}))
 
 
 def gen_median(ctx, calls):
@@ -503,6 +514,131 @@ def gen_histories(ctx, calls):
         calls.append(('history', {'f': 'history', 'x': xs, 'dtype': 'f8', 'layout': layout, 'steps': steps}))
 
 
+
+DEGENERATE_2D = [(1, 1), (1, 2), (2, 1), (1, 3), (3, 1), (1, 4), (4, 1), (1, 7), (7, 1), (1, 12), (12, 1)]
+DEGENERATE_3D = [(2, 1, 4), (1, 3, 1), (1, 1, 5), (1, 1, 1), (3, 1, 1), (1, 2, 3), (2, 3, 1)]
+
+
+def gen_degenerate(ctx, calls):
+    """arrays with axes of length one -- (1,n), (n,1), (1,1), (2,1,4), (1,) -- and of size 0 / 1, for all four functions.
+    What the right answer is:
+      rebin    : the ordinary per-axis rule (an axis of length one can only be kept or expanded; expanding it repeats
+                 the single sample); exactly the requested shape -- rebin1/2/3_spec, rebin_nd_spec;
+      median   : plain: the median of all elements whatever the shape; axis: per line; with a width: 2-D arrays with an
+                 axis of length one have no interior point for width >= 3, so every sample is an edge sample and
+                 stays untouched (median_filter2_spec; C14_median_filter2_refines_spec_size); 3-D -> ValueError;
+      smooth / uniq : (n,), (n,1), (1,1) behave as the 1-D array of the same values (numpy leading-axis indexing;
+                 IDL skips dimensions of length one) and keep their shape; (1,n), (2,1,4) are outside the model
+                 (smooth is 1-D code: IndexError) -- observed only, both import routes must agree."""
+    rng = ctx.rng
+    reps = ctx.n(1, 4)
+    for rep in range(reps):
+        for shape in DEGENERATE_2D + DEGENERATE_3D + [(1,), (2,), (1, 2, 1, 3), (2, 1, 1, 2, 1)]:
+            n = 1
+            for s_ in shape:
+                n *= s_
+            nd = len(shape)
+            # ---- rebin: every axis kept / expanded / (if longer than one) shrunk
+            for k in range(ctx.n(3, 8)):
+                dt = ['f8', rng.choice(INT_DTYPES), 'f4'][k % 3]
+                isint = dt not in ('f8', 'f4')
+                d = []
+                for a in shape:
+                    md = rng.choice(['keep', 'expand', 'expand', 'shrink'] if a > 1 else ['keep', 'expand', 'expand'])
+                    d.append(axis_target(rng, a, md, isint))
+                x = reshape(rebin_values(rng, n, dt), shape)
+                c = {'f': 'rebin', 'x': x, 'dtype': dt, 'd': d, 'sample': k % 4 == 3}
+                if nd <= 3 and k % 3 == 2:
+                    c['anyrank'] = True
+                calls.append(('rebin%s-degenerate' % ('N' if nd > 3 or c.get('anyrank') else str(nd)), c))
+            # requested shape that drops / squeezes the axis of length one: rank change -> ValueError
+            if nd >= 2 and 1 in shape:
+                x = reshape(rebin_values(rng, n, 'f8'), shape)
+                calls.append(('rebin-degenerate-rankchange', {'f': 'rebin', 'x': x, 'dtype': 'f8', 'd': [a for a in shape if a != 1] or [1],
+                                                              'sample': False}))
+            if nd > 3:
+                continue
+            # ---- median
+            xs = reshape(values(rng, n, rng.choice(['dyadic', 'few', 'spike'])), shape)
+            for even in (False, True):
+                calls.append(('median-degenerate', {'f': 'median', 'x': xs, 'even': even}))
+            if nd == 2:
+                for ax in (0, 1):
+                    calls.append(('median-axis-degenerate', {'f': 'median_axis', 'x': xs, 'axis': ax}))
+            if nd <= 2:
+                for w in sorted({1, 3, 5, n if n % 2 else n - 1, n + 2 if n % 2 else n + 1, rng.randrange(1, n + 4, 2)}):
+                    if w >= 1:
+                        calls.append(('medfilt%d-degenerate' % nd, {'f': 'medfilt', 'x': xs, 'w': w}))
+            else:
+                calls.append(('medfilt3-degenerate', {'f': 'medfilt', 'x': xs, 'w': rng.choice([1, 3, 5])}))
+            # ---- smooth / uniq
+            col = column_like(shape)
+            for w in (2, 3, 5, n, n + 1):
+                for et in (False, True):
+                    c = {'f': 'smooth', 'x': reshape(values(rng, n), shape), 'w': w, 'et': et}
+                    if not col:
+                        c['observe'] = True
+                    calls.append(('smooth-degenerate' + ('' if col else '-observed'), c))
+            srt = sorted_runs(rng, n, rep % 2 == 1)
+            c = {'f': 'uniq', 'x': reshape(srt, shape), 'dtype': 'f8' if rep % 2 == 1 else 'i8', 'idx': None}
+            if not col:
+                c['observe'] = True
+            calls.append(('uniq-degenerate' + ('' if col else '-observed'), c))
+    # ---- size 0 (outside the property: lengths 1..N; the model M must still correspond) and size 1
+    for rep in range(2):
+        calls.append(('smooth-size0', {'f': 'smooth', 'x': [], 'w': rng.choice([1, 3, 4]), 'et': bool(rep)}))
+        calls.append(('uniq-size0', {'f': 'uniq', 'x': [], 'dtype': ('i8', 'f8')[rep], 'idx': None}))
+        calls.append(('rebin1-size0', {'f': 'rebin', 'x': [], 'dtype': ('f8', 'i4')[rep], 'd': [0], 'sample': bool(rep)}))
+        calls.append(('median-size0-observed', {'f': 'median', 'x': [], 'even': bool(rep), 'observe': True}))
+        calls.append(('medfilt-size0-observed', {'f': 'medfilt', 'x': [], 'w': 3, 'observe': True}))
+        calls.append(('rebin-size0-observed', {'f': 'rebin', 'x': [], 'dtype': 'f8', 'd': [2], 'sample': False, 'observe': True}))
+        one = [C.dyadic(rng, -8, 8, 4)]
+        for w in (0, 1, 2, 3, 5):
+            calls.append(('smooth-size1', {'f': 'smooth', 'x': one, 'w': w, 'et': bool(rep)}))
+        calls.append(('uniq-size1', {'f': 'uniq', 'x': [rng.randint(-5, 5)], 'dtype': 'i8', 'idx': None}))
+        calls.append(('uniq-size1', {'f': 'uniq', 'x': one, 'dtype': 'f8', 'idx': [0], 'idx_dtype': 'i8'}))
+        calls.append(('median-size1', {'f': 'median', 'x': one, 'even': bool(rep)}))
+        for w in (1, 3):
+            calls.append(('medfilt1-size1', {'f': 'medfilt', 'x': one, 'w': w}))
+        for d in (1, 2, 5):
+            calls.append(('rebin1-size1', {'f': 'rebin', 'x': one, 'dtype': 'f8', 'd': [d], 'sample': bool(rep)}))
+
+
+def gen_anyrank(ctx, calls):
+    """rebin beyond 3-D (ranks 4 and 5) and a sample of ranks 1-3 through the any-rank model rebin_nd"""
+    rng = ctx.rng
+    modes = ['expand', 'keep', 'shrink']
+    for rep in range(ctx.n(40, 300)):
+        nd = rng.choice([4, 4, 5, 1, 2, 3])
+        dt = ['f8', rng.choice(INT_DTYPES), 'f4'][rep % 3]
+        isint = dt not in ('f8', 'f4')
+        shape = [rng.choice([1, 2, 2, 3, 4]) for _ in range(nd)]
+        d = []
+        for a in shape:
+            md = rng.choice(modes if a > 1 else modes[:2])
+            d.append(a * rng.choice([2, 3]) if md == 'expand' else axis_target(rng, a, md, isint))
+        n = 1
+        for a in shape:
+            n *= a
+        x = reshape(rebin_values(rng, n, dt), shape)
+        calls.append(('rebinN-rank%d' % nd, {'f': 'rebin', 'x': x, 'dtype': dt, 'd': d, 'sample': rep % 4 == 3, 'anyrank': True}))
+    for rep in range(ctx.n(6, 30)):
+        nd = rng.choice([4, 5])
+        shape = [rng.randint(1, 3) for _ in range(nd)]
+        n = 1
+        for a in shape:
+            n *= a
+        x = reshape(rebin_values(rng, n, 'f8'), shape)
+        d = list(shape)
+        if rep % 2:
+            d = d[:-1]
+        else:
+            ax = rng.randrange(nd)
+            d[ax] = shape[ax] * 2 + 1 if shape[ax] > 1 else shape[ax]
+            if d == list(shape):
+                d = d + [1]
+        calls.append(('rebinN-rejected', {'f': 'rebin', 'x': x, 'dtype': 'f8', 'd': d, 'sample': False, 'anyrank': True}))
+
 LAYOUTS_1D = ['c', 'c', 'c', 'strided', 'rev', 'ro']
 LAYOUTS_ND = ['c', 'c', 'f', 't', 'strided', 'ro']
 
@@ -516,12 +652,16 @@ def gen_calls(ctx):
     gen_rebin(ctx, calls)
     gen_mixed(ctx, calls)
     gen_dtypes(ctx, calls)
+    gen_degenerate(ctx, calls)
+    gen_anyrank(ctx, calls)
     gen_histories(ctx, calls)
     # memory layout of the array argument: drawn for every call (contiguous / strided view / reversed view /
     # Fortran order / transposed view / read-only)
     for _, c in calls:
         if 'layout' not in c and 'x' in c:
-            c['layout'] = ctx.rng.choice(LAYOUTS_1D if ndim(c['x']) == 1 else LAYOUTS_ND)
+            c['layout'] = ctx.rng.choice(LAYOUTS_1D if ndim(c['x']) <= 1 else LAYOUTS_ND)
+        # import route of the call (the other route is called as well and must agree)
+        c['route'] = ctx.rng.choice(['package', 'module'])
     return calls
 
 
@@ -533,6 +673,10 @@ def ndim(x):
         n += 1
         x = x[0] if x else None
     return n
+
+
+def size_of(x):
+    return len(flatten(x))
 
 
 def flatten(x):
@@ -556,18 +700,34 @@ def shape_of(x):
     return s
 
 
+def nestedn(x, nd):
+    """nested list literal of any depth"""
+    if nd == 1:
+        return qlist(x)
+    return C.coq_list([nestedn(r, nd - 1) for r in x])
+
+
 def rres_term(r):
     if 'ok' in r:
         nd = len(r['shape'])
-        if nd in (1, 2, 3) and all(s > 0 for s in r['shape']):
+        if nd in (1, 2, 3) and (all(s > 0 for s in r['shape']) or r['shape'] == [0]):
             return '(R%d %s)' % (nd, nested(r['ok'], nd))
         return 'ROther'
     return 'RValueError' if r.get('err') == 'ValueError' else 'ROther'
 
 
+def rresn_term(r, n):
+    """result of rebin as a term of type rresN n (any rank); a result of another rank is RNOther"""
+    if 'ok' in r:
+        if len(r['shape']) == n and all(s > 0 for s in r['shape']):
+            return '(RN (n:=%d) %s)' % (n, nestedn(r['ok'], n))
+        return 'RNOther'
+    return 'RNValueError' if r.get('err') == 'ValueError' else 'RNOther'
+
+
 def protected(r):
     """generic bookkeeping of every call: arguments bit-identical afterwards, same answer on a read-only input"""
-    return bool(r.get('input_unchanged', True)) and bool(r.get('readonly_ok', True))
+    return bool(r.get('input_unchanged', True)) and bool(r.get('readonly_ok', True)) and bool(r.get('route_ok', True))
 
 
 def smooth_tols(xs, w, rel):
@@ -583,29 +743,67 @@ def smooth_tols(xs, w, rel):
     return out
 
 
+def sums_exact(xs, w):
+    """True when every partial sum smooth() can form on xs is exact in double arithmetic: all values are multiples
+    of 2^-b and (sum |x| + width * max |x|) * 2^b < 2^52.  Then the only rounding in an output sample is the final
+    division by float(width) (correctly rounded by IEEE 754), so the sample must be the double nearest to the exact
+    mean -- equal to it when the exact mean is a double (1.0, an integer, a short dyadic)."""
+    if not xs:
+        return True
+    fr = [fractions.Fraction(v) for v in xs]
+    b = max(f_.denominator for f_ in fr)
+    if b & (b - 1) or b > 2 ** 40:
+        return False
+    tot = sum(abs(f_) for f_ in fr) + (abs(w) + 2) * max(abs(f_) for f_ in fr)
+    return tot * b < 2 ** 52
+
+
+def column_like(shape):
+    """shape (n,), (n, 1), (n, 1, 1) ... : numpy's leading-axis indexing makes these behave as 1-D arrays of length n"""
+    return len(shape) >= 1 and all(s == 1 for s in shape[1:])
+
+
 def case_term(c, r):
     """-> (coq term or None, direct problem or None)"""
     f = c['f']
     dt = c.get('dtype', 'f8')
+    if c.get('observe'):
+        return None, None          # outside the modelled domain: outcome recorded, both import routes must agree
     if f == 'smooth':
         if 'ok' not in r:
             return None, 'smooth raised %s' % r.get('err')
-        meta = r['dtype'] == NP_NAME[dt] and r['shape'] == [len(c['x'])] and protected(r)
-        tols = smooth_tols(c['x'], c['w'], fractions.Fraction(1, 10 ** 12) if dt == 'f8' else fractions.Fraction(1, 10 ** 5))
-        return '(CSmooth %s %s %s %s %s %s)' % (qlist(c['x']), C.zlit(c['w']), C.boollit(bool(c['et'])), qlist(tols),
-                                                C.boollit(meta), qlist(r['ok'])), None
+        shp = shape_of(c['x']) if c['x'] else [0]
+        if r['shape'] != shp:
+            return None, 'smooth returned shape %s for an input of shape %s' % (r['shape'], shp)
+        xs, out = flatten(c['x']), flatten(r['ok'])
+        meta = r['dtype'] == NP_NAME[dt] and protected(r)
+        if dt == 'f8' and sums_exact(xs, c['w']):
+            return '(CSmoothX %s %s %s %s %s)' % (qlist(xs), C.zlit(c['w']), C.boollit(bool(c['et'])),
+                                                 C.boollit(meta), qlist(out)), None
+        tols = smooth_tols(xs, c['w'], fractions.Fraction(1, 10 ** 12) if dt == 'f8' else fractions.Fraction(1, 10 ** 5))
+        return '(CSmooth %s %s %s %s %s %s)' % (qlist(xs), C.zlit(c['w']), C.boollit(bool(c['et'])), qlist(tols),
+                                                C.boollit(meta), qlist(out)), None
     if f == 'median':
         if 'ok' not in r:
             return None, 'median raised %s' % r.get('err')
         if not r['ndim0']:
-            return None, 'median did not return a scalar'
+            return None, 'median did not return a scalar (shape %s)' % r.get('shape')
         return '(CMedian %s %s %s %s)' % (qlist(flatten(c['x'])), C.boollit(c['even']), C.boollit(protected(r)), C.qlit(r['ok'])), None
     if f == 'median_axis':
         if 'ok' not in r:
             return None, 'median(axis) raised %s' % r.get('err')
+        shp = shape_of(c['x'])
+        want = [shp[1 - c['axis']]]
+        if r['shape'] != want:
+            return None, 'median(axis=%d) returned shape %s for an input of shape %s' % (c['axis'], r['shape'], shp)
         return '(CMedianAxis %s %s %s %s)' % (qlist2(c['x']), C.zlit(c['axis']), C.boollit(protected(r)), qlist(r['ok'])), None
     if f == 'medfilt':
         nd = ndim(c['x'])
+        if nd >= 3:
+            # median.py: only 1-D and 2-D arrays can be filtered, everything else is a ValueError
+            if r.get('err') == 'ValueError' and protected(r):
+                return None, None          # checked here, nothing to evaluate in Coq
+            return None, 'median(width) of a %d-D array: %s instead of ValueError' % (nd, r.get('err', 'a result of shape %s' % r.get('shape')))
         if 'ok' in r:
             good = r['dtype'] == NP_NAME[dt] and r['shape'] == shape_of(c['x']) and protected(r)
             e = '(F%dOk %s)' % (nd, nested(r['ok'], nd)) if good else 'F%dOther' % nd
@@ -618,9 +816,10 @@ def case_term(c, r):
         want_dt = 'int64' if c.get('idx') is None else {'i8': 'int64', 'i4': 'int32'}[c.get('idx_dtype', 'i8')]
         meta = r['dtype'] == want_dt and len(r['shape']) == 1 and protected(r)
         idx = C.optlit(c.get('idx'), zlist)
+        xs = flatten(c['x'])
         if c['dtype'] == 'f8':
-            return '(CUniqQ %s %s %s %s)' % (qlist(c['x']), idx, C.boollit(meta), zlist(r['ok'])), None
-        return '(CUniqZ %s %s %s %s)' % (zlist(c['x']), idx, C.boollit(meta), zlist(r['ok'])), None
+            return '(CUniqQ %s %s %s %s)' % (qlist(xs), idx, C.boollit(meta), zlist(r['ok'])), None
+        return '(CUniqZ %s %s %s %s)' % (zlist(xs), idx, C.boollit(meta), zlist(r['ok'])), None
     if f == 'rebin':
         nd = ndim(c['x'])
         isint = dt not in ('f8', 'f4')
@@ -628,8 +827,14 @@ def case_term(c, r):
         meta = protected(r)
         if 'ok' in r:
             meta = meta and r['dtype'] == NP_NAME[dt] and r['shape'] == list(c['d']) and r['is_ndarray']
+        if nd >= 4 or c.get('anyrank'):
+            # the model for every rank (rebin_nd, induction over the list of axes)
+            return '(CRebinN %d %s %s %s %s %s %s %s)' % (nd, 'DInt' if isint else 'DFloat', C.boollit(c['sample']),
+                                                          nestedn(c['x'], nd), zlist(c['d']), tol, C.boollit(meta),
+                                                          rresn_term(r, nd)), None
         return '(CRebin%d %s %s %s %s %s %s %s)' % (nd, 'DInt' if isint else 'DFloat', C.boollit(c['sample']), nested(c['x'], nd),
                                                     zlist(c['d']), tol, C.boollit(meta), rres_term(r)), None
+
     raise ValueError(f)
 
 
@@ -650,7 +855,8 @@ def signature(tag, c, r, verdict):
     f = c['f']
     what = 'property' if verdict & 2 else 'model'
     if not protected(r):
-        what = ('argument-modified:' if not r.get('input_unchanged', True) else 'readonly-differs:') + what
+        what = ('argument-modified:' if not r.get('input_unchanged', True) else
+                'readonly-differs:' if not r.get('readonly_ok', True) else 'import-routes-differ:') + what
     if f == 'rebin':
         dt = c['dtype']
         kind = 'f' if dt in ('f8', 'f4') else ('u' if dt.startswith('u') else 'i')
@@ -695,6 +901,7 @@ def correspond(ctx, proof_ok=True):
     ctx.coverage['numpy'] = outs[0]['numpy']
     terms = []   # (call index, term)   -- a history contributes one term per step (hstep[len(terms)] = step number)
     direct = []
+    checked_here = []      # calls decided on the Python side (3-D running median -> ValueError) or only observed
     hstep = {}
     for ci, ((tag, c), r) in enumerate(zip(calls, results)):
         if c['f'] == 'history':
@@ -707,7 +914,9 @@ def correspond(ctx, proof_ok=True):
                     terms.append((ci, t))
             continue
         t, problem = case_term(c, r)
-        if t is None:
+        if t is None and problem is None:
+            checked_here.append(ci)
+        elif t is None:
             direct.append((ci, problem))
         else:
             terms.append((ci, t))
@@ -785,8 +994,39 @@ def correspond(ctx, proof_ok=True):
                            'coq_case': t, 'verdict': v, 'meaning': MEANING}, False)
     for ci, why in direct:
         tag, c = calls[ci]
-        ctx.violation('C14:%s:%s' % (c['f'], why.split(' raised ')[-1][:40]), '%s on %s' % (why, tag),
+        sig = 'C14:%s:%s' % (c['f'], re.sub(r'[\[(][0-9, ]*[\])]', 'S', why.split(' raised ')[-1])[:60])
+        if sig in seen:
+            continue
+        seen.add(sig)
+        ctx.violation(sig, '%s on %s' % (why, tag),
                       {'kind': 'failing-input', 'call': c, 'impl_result': results[ci]}, True)
+    # calls outside the modelled domain: the outcome is recorded; the two import routes, the read-only repeat and the
+    # argument bytes must still agree (a disagreement is reported without a failing input: no specification there)
+    observed = {}
+    for ci in checked_here:
+        tag, c = calls[ci]
+        r = results[ci]
+        if not c.get('observe'):
+            continue
+        k = '%s %s: %s' % (c['f'], 'x'.join(str(a) for a in (shape_of(c['x']) if c['x'] else [0])),
+                           'ok' if 'ok' in r else r.get('err', '?'))
+        observed[k] = observed.get(k, 0) + 1
+        if not protected(r):
+            sig = 'C14:observed:%s:%s' % (c['f'], 'argument-modified' if not r.get('input_unchanged', True) else
+                                          'readonly-differs' if not r.get('readonly_ok', True) else 'import-routes-differ')
+            if sig not in seen:
+                seen.add(sig)
+                ctx.violation(sig, 'outside the modelled domain (%s): the call does not give the same answer through both import '
+                              'routes / on a read-only copy, or modifies its argument' % tag,
+                              {'kind': 'broken-correspondence', 'item': 'pydl.%s via pydl/__init__.py vs pydl/%s.py' % (c['f'] if c['f'] != 'medfilt' else 'median', c['f'] if c['f'] != 'medfilt' else 'median'),
+                               'call': c, 'impl_result': r}, False)
+    ctx.coverage['observed_outside_model'] = observed
+    ctx.coverage['decided_on_python_side'] = len(checked_here) - sum(observed.values())
+    routes = {}
+    for _, c in calls:
+        routes[c.get('route', '-')] = routes.get(c.get('route', '-'), 0) + 1
+    ctx.coverage['import_routes'] = routes
+    ctx.coverage['import_route_disagreements'] = sum(1 for r in results if r.get('route_ok') is False)
 
 
 def replay(ctx, rep):
@@ -819,10 +1059,17 @@ def replay(ctx, rep):
         cc = C.CoqCases(ctx.work, HEADER, 'run_cases', shard=10)
         v = cc.run([t], tag='replay')[0]
         print('verdict:', v, '(0 = agrees with model and specification; +1 model differs; +2 specification violated)')
-        if c['f'] == 'rebin':
+        if c['f'] == 'rebin' and c['x']:
             nd = ndim(c['x'])
-            print('spec   :', cc.show('rebin%d_spec %s %s %s %s' % (nd, 'DFloat' if c['dtype'] in ('f8', 'f4') else 'DInt',
-                                                                   C.boollit(c['sample']), nested(c['x'], nd), zlist(c['d'])))[:700])
+            kind = 'DFloat' if c['dtype'] in ('f8', 'f4') else 'DInt'
+            if nd > 3 or c.get('anyrank'):
+                print('spec   :', cc.show('rebin_nd_spec %s %s %d %s %s' % (kind, C.boollit(c['sample']), nd, nestedn(c['x'], nd),
+                                                                            zlist(c['d'])))[:700])
+            else:
+                print('spec   :', cc.show('rebin%d_spec %s %s %s %s' % (nd, kind, C.boollit(c['sample']), nested(c['x'], nd),
+                                                                       zlist(c['d'])))[:700])
+        if not protected(r):
+            print('routes :', 'route %s gave the result above; the other import route gave %s' % (r.get('route'), r.get('other_route_result')))
     else:
         print('direct :', problem)
     return 0
